@@ -6,7 +6,7 @@ A_PROPS = [
 ]
 
 ENGINE = {p: "gfisim" for p in A_PROPS}
-ENGINE["C04"] = ["gfisim", "gfisim", "distsim"]
+ENGINE["C04"] = ["gfisim", "distsim"]
 ENGINE["C17"] = "chmsim"
 ENGINE["C19"] = "chmsim"
 ENGINE["C31"] = "ttsim"
